@@ -73,7 +73,11 @@ Module FloatInst.
   Definition ln2 : float := 0x1.62e42fefa39efp-1.
 
   Definition fl_ln (x : float) : float :=
-    if (PrimFloat.ltb 0x1.6p-1 x) && (PrimFloat.ltb x 0x1.6p0) then
+    if PrimFloat.eqb x 0 then neg_infinity            (* ln 0 = -inf, as in IEEE libm *)
+    else if PrimFloat.ltb x 0 then nan
+    else if PrimFloat.eqb x infinity then infinity
+    else if negb (PrimFloat.eqb x x) then nan
+    else if (PrimFloat.ltb 0x1.6p-1 x) && (PrimFloat.ltb x 0x1.6p0) then
       (* near 1: no exponent term, hence no cancellation *)
       let z := (x - 1) / (x + 1) in
       2 * atanh_series 40 1 z (z * z) 0
